@@ -6,7 +6,8 @@
 (***************************************************************************)
 EXTENDS PushRand
 
-HarnessInstr == {"VERIF.PROBE", "VERIF.SLEEP", "VERIF.NOOP*WITH*A*NAME*LONGER*THAN*ANY*BUILTIN*INSTRUCTION"}
+HarnessInstr == {"VERIF.PROBE", "VERIF.SLEEP", "VERIF.NOOP*WITH*A*NAME*LONGER*THAN*ANY*BUILTIN*INSTRUCTION",
+                 "VERIF.NÖÖP*MIT*UMLÄUTEN*ÜBER*DREIUNDZWANZIG*BYTES", "VERIF.ÄÖÜ*ÄÖÜ*ÄÖÜ*ÄÖÜ*ÄÖÜ*ÄÖÜ*ÄÖÜ*ÄÖÜ*ÄÖÜ*ÄÖÜ*ÄÖÜ*ÄÖÜ*NOOP", "VERIF.MyInstruction"}
 Registry == StackOpNames \cup ScalarInstr \cup CodeFamily \cup VectorInstr \cup ListInstr \cup IOInstr
             \cup GraphInstr \cup RandInstr \cup {"NOOP"}
 KnownInstr == Registry \cup HarnessInstr
